@@ -291,9 +291,20 @@ def retrieve_initial_concentration(
         # unless mixed with general decays
         return
 
+    # The species are collected megacomplex by megacomplex, so their order (and number) can differ
+    # from the order of the compartments of the initial concentration: select by label.
+    initial_concentration = dict(
+        zip(
+            dataset_model.initial_concentration.compartments,
+            dataset_model.initial_concentration.parameters,
+        )
+    )
     dataset["initial_concentration"] = (
         (species_dimension,),
-        dataset_model.initial_concentration.parameters,
+        [
+            initial_concentration.get(species, np.nan)
+            for species in dataset.coords[species_dimension].values
+        ],
     )
 
 
